@@ -1,5 +1,6 @@
 import SJ.Spec.Str
 import SJ.Model.Escape
+import SJ.Proofs.Bytes256
 /-! Helper lemmas for C05 (serializer side): table facts and the loop invariant of
     `format_escaped_str_contents`. -/
 namespace SJ.Proofs.Escape
@@ -20,21 +21,19 @@ def entryOk (b : UInt8) : Bool :=
   else needsEscape b && (fromEscapeTable (escapeOf b) b).isSome
         && ((fromEscapeTable (escapeOf b) b).map writeCharEscape == some (escapeByte b))
 
-theorem table_all : (List.range 256).all (fun i => entryOk (UInt8.ofNat i)) = true := by decide +kernel
+theorem entryOk_all : ∀ b : UInt8, entryOk b = true :=
+  Bytes256.all256 entryOk (by decide +kernel) (by decide +kernel) (by decide +kernel) (by decide +kernel)
 
-theorem entryOk_all (b : UInt8) : entryOk b = true := by
-  have h := List.all_eq_true.mp table_all b.toNat (by simp [List.mem_range, b.toNat_lt])
-  simpa using h
+/-- bytes that need escaping are ASCII and so is their escaped spelling -/
+def asciiOk (b : UInt8) : Bool := !needsEscape b || ((escapeByte b).all (· < 0x80) && decide (b < 0x80))
 
-theorem asciiOnly_all :
-    (List.range 256).all (fun i => needsEscape (UInt8.ofNat i) → (escapeByte (UInt8.ofNat i)).all (· < 0x80) ∧ UInt8.ofNat i < 0x80) = true := by
-  decide +kernel
+theorem asciiOk_all : ∀ b : UInt8, asciiOk b = true :=
+  Bytes256.all256 asciiOk (by decide +kernel) (by decide +kernel) (by decide +kernel) (by decide +kernel)
 
 theorem asciiOnly (b : UInt8) (h : needsEscape b = true) :
     (escapeByte b).all (· < 0x80) = true ∧ b < 0x80 := by
-  have h' := List.all_eq_true.mp asciiOnly_all b.toNat (by simp [List.mem_range, b.toNat_lt])
-  simp only [UInt8.ofNat_toNat, decide_eq_true_eq] at h'
-  exact h' h
+  have h' := asciiOk_all b
+  simpa [asciiOk, h] using h'
 
 /-- not escaped: table entry is zero, the statement leaves the byte alone -/
 theorem entry_zero {b : UInt8} (h : (escapeOf b == Gen.escapeNone) = true) :
